@@ -14,11 +14,11 @@
     * FINAL_SIZE_ERROR is the stream receiver's condition (`frameFinalSizeError`,
       `resetFinalSizeError`); a final size below data already received is
       accepted by the code (RFC 9000 §4.5 observation);
-    * `enforced_eq_advertised` is proved for the connection-level MAX_DATA; the
-      same `Limit` writer serves MAX_STREAMS (`writeLimit_spec`), and for
-      MAX_STREAM_DATA the one-step statement `stream_enforced_eq_advertised_partial`.
+    * enforced = advertised is proved at run level for MAX_DATA
+      (`enforced_eq_advertised`), MAX_STREAMS (`streams_enforced_eq_advertised`)
+      and MAX_STREAM_DATA (`stream_enforced_eq_advertised`).
 -/
-import AQ.Proofs.FlowAdvertise
+import AQ.Proofs.FlowStreamAdv2
 
 namespace AQ.Props.C07
 open AQ AQ.Stream AQ.Flow
@@ -157,30 +157,27 @@ theorem reset_final_size_iff (c c' : Conn) (st : Strm) (sid z : Nat) (hrecv : c.
     never more (a peer beyond what it was told is closed), never less (a peer
     within what it was told is not accused). -/
 theorem enforced_eq_advertised (c : Conn) (hq : c.quirks.raiseBeforeWrite = false) (ops : List Op) :
-    (∀ v ∈ advertised (run c ops).2, v ≤ (run c ops).1.localMaxData.value) ∧
+    (∀ v ∈ advertisedK .data (run c ops).2, v ≤ (run c ops).1.localMaxData.value) ∧
     c.localMaxData.value ≤ (run c ops).1.localMaxData.value ∧
     ((run c ops).1.localMaxData.value = c.localMaxData.value ∨
-     (run c ops).1.localMaxData.value ∈ advertised (run c ops).2) := by
-  induction ops generalizing c with
-  | nil => simp [run, advertised]
-  | cons op ops ih =>
-    obtain ⟨hq', hstep⟩ := step_maxData c hq op
-    obtain ⟨i1, i2, i3⟩ := ih (step c op).1 (by rw [hq']; exact hq)
-    simp only [run]
-    refine ⟨?_, ?_, ?_⟩
-    · intro v hv
-      rcases (mem_advertised_cons _ _ _).mp hv with hv | hv
-      · rcases hstep with ⟨hno, _⟩ | ⟨w, hw, hval, _⟩
-        · exact absurd hv (hno v)
-        · have := (hw v).mp hv; subst this; rw [← hval]; exact i2
-      · exact i1 v hv
-    · rcases hstep with ⟨_, hval⟩ | ⟨w, _, hval, hle⟩ <;> omega
-    · rcases i3 with i3 | i3
-      · rcases hstep with ⟨_, hval⟩ | ⟨w, hw, hval, _⟩
-        · left; rw [i3, hval]
-        · right; rw [i3, hval]
-          exact (mem_advertised_cons _ _ _).mpr (.inl ((hw w).mpr rfl))
-      · right; exact (mem_advertised_cons _ _ _).mpr (.inr i3)
+     (run c ops).1.localMaxData.value ∈ advertisedK .data (run c ops).2) :=
+  run_adv c hq .data ops
+
+/-- "a stream beyond a limit this endpoint has advertised": the same for the
+    stream-count limits that `_get_or_create_stream` enforces: after any sequence
+    of operations `_local_max_streams_bidi/uni.value` is the largest of the
+    initial value (transport parameter) and the values of the MAX_STREAMS frames
+    of that kind written so far. -/
+theorem streams_enforced_eq_advertised (c : Conn) (hq : c.quirks.raiseBeforeWrite = false) (ops : List Op) :
+    ((∀ v ∈ advertisedK .streamsBidi (run c ops).2, v ≤ (run c ops).1.localMaxStreamsBidi.value) ∧
+     c.localMaxStreamsBidi.value ≤ (run c ops).1.localMaxStreamsBidi.value ∧
+     ((run c ops).1.localMaxStreamsBidi.value = c.localMaxStreamsBidi.value ∨
+      (run c ops).1.localMaxStreamsBidi.value ∈ advertisedK .streamsBidi (run c ops).2)) ∧
+    ((∀ v ∈ advertisedK .streamsUni (run c ops).2, v ≤ (run c ops).1.localMaxStreamsUni.value) ∧
+     c.localMaxStreamsUni.value ≤ (run c ops).1.localMaxStreamsUni.value ∧
+     ((run c ops).1.localMaxStreamsUni.value = c.localMaxStreamsUni.value ∨
+      (run c ops).1.localMaxStreamsUni.value ∈ advertisedK .streamsUni (run c ops).2)) :=
+  ⟨run_adv c hq .streamsBidi ops, run_adv c hq .streamsUni ops⟩
 
 /-- before `fix: raise a local flow-control limit only once the frame
     advertising it is written` the enforced value doubled although nothing was
@@ -191,32 +188,28 @@ theorem enforced_quirk_counterexample :
     (writeLimit { raiseBeforeWrite := true } l false) = ({ value := 200, sent := 100, used := 60 }, none, true) :=
   writeLimit_quirk_counterexample
 
-/- Full statement for the per-stream limit (NOT proved at run level): for every
-   operation sequence and every live stream `s`,
-     s.maxLocal = max (the initial value it was created with = the transport
-                       parameter for its type)
-                      (the values of all MAX_STREAM_DATA frames written for s.sid).
-   What is proved is the one-step core: the only operation that assigns
-   `max_stream_data_local` is `_write_stream_limits`, and it changes it only by
-   writing a MAX_STREAM_DATA frame that carries exactly the new (larger) value.
-   Missing: the induction over all operations tracking one stream object through
-   `setStrm` (as done for MAX_DATA in `enforced_eq_advertised`); the
-   correspondence check compares `max_stream_data_local{,_sent}` after every
-   operation of the real connection. -/
-/-- per-stream limit: `_write_stream_limits` changes `max_stream_data_local`
-    only by writing a MAX_STREAM_DATA frame that carries exactly the new value. -/
-theorem stream_enforced_eq_advertised_partial (c : Conn) (hq : c.quirks.raiseBeforeWrite = false)
-    (sid : Nat) (room : Bool) (st : Strm) (hf : c.find? sid = some st) :
-    (writeStreamLimits c sid room).1 = c ∨
-    (∃ v, st.maxLocal ≤ v ∧ (writeStreamLimits c sid room).2.frames = [WFrame.maxStreamData sid v] ∧
-      (writeStreamLimits c sid room).1 = c.setStrm { st with maxLocal := v, maxLocalSent := v }) := by
-  unfold writeStreamLimits
-  simp only [hf, hq, Bool.false_eq_true, if_false]
-  repeat' split
-  all_goals first
-    | (left; rfl)
-    | (right; exact ⟨_, by omega, rfl, rfl⟩)
-    | (right; exact ⟨_, Nat.le_refl _, rfl, rfl⟩)
+/-- per-stream limit, run level: after ANY sequence of operations on a connection
+    that starts without streams, `max_stream_data_local` of every live stream —
+    the limit `_handle_stream_frame` / `_handle_reset_stream_frame` enforce for it —
+    is the largest of the value it was created with (`initLocal`: the transport
+    parameter for its stream type) and the values of all MAX_STREAM_DATA frames
+    written for its id: every advertised value is within it (a peer within what it
+    was told is not accused) and it is the initial value or an advertised one (a
+    peer beyond what it was told is closed).  Hypothesis `FixedQ`: the fixes
+    `raise … only once the frame advertising it is written` and `refuse to send on a
+    stream whose state was already discarded` are in place (a stream id is created
+    at most once). -/
+theorem stream_enforced_eq_advertised (c0 : Conn) (hq : FixedQ c0) (h0 : c0.streams = []) (ops : List Op) :
+    ∀ s ∈ (run c0 ops).1.streams,
+      (∀ v ∈ msdOf s.sid (run c0 ops).2, v ≤ s.maxLocal) ∧
+      (s.maxLocal = initLocal c0 s.sid ∨ s.maxLocal ∈ msdOf s.sid (run c0 ops).2) := by
+  have hQ0 : Q c0 [] := ⟨by simp [h0, ml], by simp [h0, ml], by intro _ _ _ v hv; simp [msdOf] at hv⟩
+  obtain ⟨hQ, hcfg⟩ := run_Q hq [] hQ0 ops
+  intro s hs
+  have := hQ.live (s.sid, s.maxLocal) (List.mem_map.mpr ⟨s, hs, rfl⟩)
+  simp only [List.nil_append] at this
+  rw [hcfg.initLocal] at this
+  exact this
 
 /-! ## bounds -/
 
@@ -301,8 +294,9 @@ end AQ.Props.C07
 #print axioms AQ.Props.C07.reset_flow_control_iff
 #print axioms AQ.Props.C07.reset_final_size_iff
 #print axioms AQ.Props.C07.enforced_eq_advertised
+#print axioms AQ.Props.C07.streams_enforced_eq_advertised
 #print axioms AQ.Props.C07.enforced_quirk_counterexample
-#print axioms AQ.Props.C07.stream_enforced_eq_advertised_partial
+#print axioms AQ.Props.C07.stream_enforced_eq_advertised
 #print axioms AQ.Props.C07.reassembly_bound
 #print axioms AQ.Props.C07.crypto_bound
 #print axioms AQ.Props.C07.crypto_exceeded_iff
